@@ -277,6 +277,18 @@ func c11Run(r *Reporter, root string, l c11Layout, pairs []uint32, k1, k2, kEmb 
 			}
 		}
 	}
+	// a refused seek must not move the position the masking is computed from
+	for _, pos := range []int64{0xF00, 0xF71, 0x1000, 5} {
+		for _, o := range []ioOp{{Kind: "seek", Off: pos, Whence: io.SeekStart}, {Kind: "read", N: 16}, {Kind: "seek", Off: -1, Whence: io.SeekStart}, {Kind: "read", N: 0x200}, {Kind: "seek", Off: -1 << 40, Whence: io.SeekCurrent}, {Kind: "read", N: 0x200}} {
+			why, class := applyOp(f.(rsra), chosen.ref, st, o, nil)
+			r.Transition(1)
+			if why != "" {
+				r.Outcome(class)
+				viol("refused-seek:"+class+":"+chosen.name, why)
+				return
+			}
+		}
+	}
 	// the same layout on a filesystem that returns short reads (at most cap bytes per Read): the same bytes, by
 	// sequential read with several buffer sizes and after seeks
 	if !l.Write {
